@@ -39,6 +39,7 @@ import (
 	"os/exec"
 	"path/filepath"
 	"reflect"
+	"regexp"
 	"runtime"
 	"sort"
 	"strconv"
@@ -756,6 +757,21 @@ type detRun struct {
 	ok, fail map[string]int
 	events   int
 	reach    map[string]int
+	halted   bool
+}
+
+var detAddrRe = regexp.MustCompile(`0x[0-9a-f]{6,}`)
+
+// detHalt runs a begin/end-blocker; a panic is returned as text (first line, bounded; the panic value of a
+// node that halts is not chain data, and Go prints pointers in it: addresses are masked), "" otherwise.
+func detHalt(f func()) (what string) {
+	defer func() {
+		if r := recover(); r != nil {
+			what = strconv.Quote(trunc(detAddrRe.ReplaceAllString(strings.SplitN(fmt.Sprint(r), "\n", 2)[0], "0x?"), 160))
+		}
+	}()
+	f()
+	return ""
 }
 
 func (d *detRun) add(kind, mod, format string, a ...interface{}) {
@@ -855,7 +871,12 @@ func execDet(hd *detHist, alt bool) *detRun {
 		height++
 		hdr := tmproto.Header{Height: height, Time: time.Unix(blk.time, 0).UTC(), AppHash: app.LastCommitID().Hash}
 		d.add("block", "block", "b %d %d %d", height, blk.time, len(blk.msgs))
-		bb := app.BeginBlock(abci.RequestBeginBlock{Header: hdr})
+		var bb abci.ResponseBeginBlock
+		if what := detHalt(func() { bb = app.BeginBlock(abci.RequestBeginBlock{Header: hdr}) }); what != "" {
+			d.add("result", "beginblock", "halt B %d %s", height, what)
+			d.halted = true
+			break
+		}
 		for _, ev := range bb.Events {
 			d.events++
 			d.add("events", "beginblock/"+eventModule(ev), "%s", fmtEvent("B", ev))
@@ -886,7 +907,14 @@ func execDet(hd *detHist, alt bool) *detRun {
 				d.add("events", m.mod, "%s", fmtEvent("m"+strconv.Itoa(i), ev))
 			}
 		}
-		eb := app.EndBlock(abci.RequestEndBlock{Height: height})
+		var eb abci.ResponseEndBlock
+		if what := detHalt(func() { eb = app.EndBlock(abci.RequestEndBlock{Height: height}) }); what != "" {
+			// a panic in an end-blocker halts the chain (property C05, not C15): every replica must halt here,
+			// for the same reason; nothing is committed for this block
+			d.add("result", "endblock", "halt E %d %s", height, what)
+			d.halted = true
+			break
+		}
 		for _, ev := range eb.Events {
 			d.events++
 			d.add("events", "endblock/"+eventModule(ev), "%s", fmtEvent("E", ev))
@@ -895,6 +923,10 @@ func execDet(hd *detHist, alt bool) *detRun {
 		app.Commit()
 		d.add("apphash", "block", "h %d %s", height, hex.EncodeToString(app.LastCommitID().Hash))
 		d.add("apphash", "block", "hs %d %s", height, storeHashes(e))
+	}
+	if d.halted {
+		d.reach = map[string]int{"chain-halt(begin/end-blocker panic, see C05)": 1}
+		return d
 	}
 	// what the history reached (statistics only, read from the committed state)
 	qctx := app.NewContext(true, tmproto.Header{Height: height})
